@@ -558,3 +558,84 @@ func init() {
 		r.Check(len(issues) == 0, "RangeScan.Next:own-deleted-row-not-emitted", "after skipping a row deleted by the same transaction no tuple is returned without a new fetch", strings.Join(uniq(issues), "; "))
 	})
 }
+
+func init() {
+	reg("C06-R3", "select list: the optimizer's decision to omit the final projection depends on the names (not only the number) of the select-list entries; the sequential-scan planner's output schema is built from the select-list entries; the projection schema is built from qi.SelectFields", func(w *World, r *Report) {
+		fbj := w.Fn("planner/optimizer", "SelingerOptimizer", "findBestJoin")
+		newProj := w.FuncObj("execution/plans", "NewProjectionPlanNode")
+		colName := w.Field("parser", "SelectFieldExpression", "ColName")
+		sel := w.Field("parser", "QueryInfo", "SelectFields")
+		conv := w.FuncObj("parser", "ConvParsedSelectionExprToSchema")
+		dependsOnNames := func(v ssa.Value, depth int) bool { return dependsOnSelectNames(w, v, colName, depth) }
+		ifOnNames := func(in ssa.Instruction) bool {
+			i, ok := in.(*ssa.If)
+			return ok && dependsOnNames(i.Cond, 0)
+		}
+		r.Floor("NewProjectionPlanNode sites in findBestJoin", len(sitesCalling(fbj, newProj)), 1)
+		wit := (&PathQ{Fn: fbj, Avoid: func(in ssa.Instruction) bool { return InstrCallsObj(newProj)(in) || ifOnNames(in) }, Target: isReturn}).FromEntry()
+		r.Check(wit == nil, "findBestJoin:projection-omitted-only-after-comparing-names", "the plan is returned without the final projection only after its output columns were compared with the select-list names", "path returning the plan without projection and without consulting SelectFields[i].ColName (a count-only test lets `SELECT b, a` come back in table order): "+w.DescribeWitness(fbj, wit))
+		for _, s := range sitesCalling(fbj, newProj) {
+			c := s.(*ssa.Call)
+			r.Check(DependsOn(c.Call.Args[1], IsCallTo(conv)) && DependsOn(c.Call.Args[1], func(v ssa.Value) bool { return fieldLoadOf(v, sel) }), "findBestJoin:projection-schema-from-select-list", "the final projection's schema is converted from qi.SelectFields", "schema argument at "+w.InstrPos(s))
+		}
+		// ConvParsedSelectionExprToSchema keeps the order: it appends one column per entry in a single range loop
+		cf := w.SSA(conv)
+		newCol := w.FuncObj("storage/table/column", "NewColumn")
+		okConv := false
+		for _, s := range sitesCalling(cf, newCol) {
+			if loopHeaderOf(s.Block()) != nil && DependsOn(s.(*ssa.Call).Call.Args[0], func(v ssa.Value) bool { return fieldLoadOf(v, colName) }) {
+				okConv = true
+			}
+		}
+		r.Check(okConv, "ConvParsedSelectionExprToSchema:one-column-per-entry-in-order", "the projection schema has one column per select-list entry, named after it, built in list order", "no NewColumn(entry name) inside the loop over the select list")
+		// sequential-scan planner
+		wj := w.Fn("planner", "SimplePlanner", "MakeSelectPlanWithoutJoin")
+		seq := w.FuncObj("execution/plans", "NewSeqScanPlanNode")
+		constructPred := w.MethodObj("planner", "SimplePlanner", "ConstructPredicate")
+		for _, s := range sitesCalling(wj, seq) {
+			c := s.(*ssa.Call)
+			r.Check(DependsOn(c.Call.Args[1], func(v ssa.Value) bool { return fieldLoadOf(v, colName) }), "MakeSelectPlanWithoutJoin:schema-from-select-list", "the scan's output schema is built from the select-list entries", "schema argument at "+w.InstrPos(s)+" does not depend on SelectFields[i].ColName")
+			r.Check(DependsOn(c.Call.Args[2], IsCallTo(constructPred)), "MakeSelectPlanWithoutJoin:predicate-from-where", "the scan's predicate is built from the WHERE clause", "predicate argument at "+w.InstrPos(s)+" does not depend on ConstructPredicate()")
+		}
+		r.Floor("NewSeqScanPlanNode sites in MakeSelectPlanWithoutJoin", len(sitesCalling(wj, seq)), 1)
+	})
+}
+
+// dependsOnSelectNames: v's slice contains a load of SelectFieldExpression.ColName, or a call of a repo
+// function (depth <= 2) whose returned value depends on one.
+func dependsOnSelectNames(w *World, v ssa.Value, colName *types.Var, depth int) bool {
+	return DependsOn(v, func(x ssa.Value) bool {
+		if fieldLoadOf(x, colName) {
+			return true
+		}
+		if depth >= 2 {
+			return false
+		}
+		c, ok := x.(*ssa.Call)
+		if !ok {
+			return false
+		}
+		f := c.Call.StaticCallee()
+		if f == nil || f.Blocks == nil || f.Pkg == nil || !isRepoPath(f.Pkg.Pkg.Path()) {
+			return false
+		}
+		// does any branch or return inside the callee depend on the names?
+		for _, b := range f.Blocks {
+			for _, in := range b.Instrs {
+				switch y := in.(type) {
+				case *ssa.If:
+					if dependsOnSelectNames(w, y.Cond, colName, depth+1) {
+						return true
+					}
+				case *ssa.Return:
+					for _, rv := range y.Results {
+						if dependsOnSelectNames(w, rv, colName, depth+1) {
+							return true
+						}
+					}
+				}
+			}
+		}
+		return false
+	})
+}
